@@ -147,10 +147,11 @@ const (
 	lostResponse            // the call takes effect, the client sees a timeout
 	crashBefore             // process dies right before the call
 	crashAfter              // process dies right after the call took effect
+	conflictStorm           // this Update and the next 5 Updates of the client answer Conflict: more than the store's retry budget (5 steps)
 	numFaultKinds
 )
 
-var faultNames = map[faultKind]string{noFault: "none", notFound: "not-found", conflict: "conflict", transient: "transient", lostResponse: "lost-response", crashBefore: "crash-before", crashAfter: "crash-after"}
+var faultNames = map[faultKind]string{noFault: "none", notFound: "not-found", conflict: "conflict", transient: "transient", lostResponse: "lost-response", crashBefore: "crash-before", crashAfter: "crash-after", conflictStorm: "conflict-storm"}
 
 func (k faultKind) String() string { return faultNames[k] }
 
@@ -161,6 +162,8 @@ func applicable(k faultKind, verb string) bool {
 		return verb == "update" || verb == "delete" || verb == "get"
 	case conflict:
 		return verb == "update" || verb == "delete" || verb == "create"
+	case conflictStorm:
+		return verb == "update"
 	}
 	return true
 }
@@ -179,14 +182,15 @@ var errDead = errors.New("connection refused (process is dead)")
 type injector struct {
 	api *api
 
-	mu      sync.Mutex
-	calls   int
-	killed  bool
-	faults  []fault  // at most one fault per position
-	verbs   []string // verb of every call seen
-	hitVerb string   // verb of the call hit by the LAST fault of the list (the one a run is classified by)
-	hitName string
-	skipped bool // that fault was not applicable to the verb of the call at its position
+	mu        sync.Mutex
+	calls     int
+	killed    bool
+	faults    []fault  // at most one fault per position
+	verbs     []string // verb of every call seen
+	hitVerb   string   // verb of the call hit by the LAST fault of the list (the one a run is classified by)
+	hitName   string
+	stormLeft int  // Updates that still answer Conflict
+	skipped   bool // that fault was not applicable to the verb of the call at its position
 	// onThirdParty tells the run's model that the API state of name was changed by the injected third party
 	onThirdParty func(name string, now val)
 	// interleave: run once, between two API calls of the operation in progress (right before the interleaveAt-th call
@@ -253,6 +257,12 @@ func (in *injector) react(a k8stesting.Action) (bool, runtime.Object, error) {
 			}
 		}
 	}
+	if in.stormLeft > 0 && verb == "update" {
+		in.stormLeft--
+		in.calls++
+		in.verbs = append(in.verbs, verb)
+		return true, nil, apierrors.NewConflict(condGVR.GroupResource(), actionName(a), errors.New("injected: the object has been modified (again)"))
+	}
 	in.calls++
 	in.verbs = append(in.verbs, verb)
 	kind := noFault
@@ -296,6 +306,9 @@ func (in *injector) react(a k8stesting.Action) (bool, runtime.Object, error) {
 			}
 			return false, nil, nil
 		}
+		return true, nil, apierrors.NewConflict(gr, in.hitName, errors.New("injected: the object has been modified"))
+	case conflictStorm:
+		in.stormLeft = 5
 		return true, nil, apierrors.NewConflict(gr, in.hitName, errors.New("injected: the object has been modified"))
 	case transient:
 		return true, nil, apierrors.NewServiceUnavailable("injected: apiserver unavailable")
